@@ -27,6 +27,7 @@ TKonst == IsEvent("konst") /\ LET e == Rec[l] IN
             /\ CASE e.scope = "field" -> FieldKonstOK(e.field, e.name, e.val)
                  [] e.scope = "curve" -> CurveKonstOK(e.name, e.val)
                  [] e.scope = "bls" -> BlsKonstOK(e.name, e.val)
+                 [] e.scope = "tower" -> TowerKonstOK(e.name, e.i, e.val)
                  [] e.scope = "generator" -> NLess(e.x, P) /\ NLess(e.y, P) /\ GeneratorOK(e.x, e.y)
                  [] OTHER -> FALSE
             /\ seen' = seen \cup {<<e.scope, e.name>>}
